@@ -118,6 +118,8 @@ func VerifHarness_C06_Select6()  { c06Select(6) }
 func VerifHarness_C06_Select12() { c06Select(12) }
 
 // candidate superset: everything returned with enhancement off is still returned with it on
+var c06Words3 bool
+
 func c06Superset(n int, symbolicDB bool) {
 	vConcreteWords, vFreshCounter = !symbolicDB, 0
 	db := c03DB(n, verifIntRange("shape", 0, 2))
@@ -126,6 +128,9 @@ func c06Superset(n int, symbolicDB bool) {
 	q := c06Word("w1", 2, 4)
 	if verifBool("two") {
 		q = q + " " + c06Word("w2", 2, 2)
+	}
+	if c06Words3 && verifBool("three") {
+		q = q + " " + c06Word("w3", 2, 3)
 	}
 	off := db.SearchUniversal(q, SearchOptions{Limit: n + 5, AllPlatforms: true})
 	on := db.SearchUniversal(q, SearchOptions{Limit: n + 5, AllPlatforms: true, UseNLP: true})
@@ -146,4 +151,4 @@ func c06Superset(n int, symbolicDB bool) {
 }
 
 func VerifHarness_C06_Superset3Q() { c06Superset(3, false) }
-func VerifHarness_C06_Superset2()  { c06Superset(2, true) }
+func VerifHarness_C06_Superset3Q3() { c06Words3 = true; c06Superset(3, false); c06Words3 = false }
